@@ -82,8 +82,9 @@ SPEC = dict(
         "exact-arithmetic theorems (revcomp_commutes_*, revcomp_mirrors_scores for sums) are over Qc / any commutative "
         "monoid; in binary32 the row sum and the window sum are taken in a different order — stated for every carrier "
         "by C10_revcomp_to_freq_reassociation and C10_revcomp_scores_sum_reversed — so equality holds only up to "
-        "rounding (checked with the stated tolerances, and bit-exactly against the binary32 model); the size of that "
-        "rounding difference is not proved",
+        "rounding (checked with the stated tolerances, and bit-exactly against the binary32 model); for the mirrored "
+        "scores the size of the difference is proved (C10_revcomp_mirrors_scores_f32: <= 2((1+u)^(M-1)-1)*sum|cells|, "
+        "below the checker's M*2^-23*sum|cells| for M <= 4096 rows, both scores finite); for count -> frequency it is not",
         "flog2 (libm log2f) is a Section variable; commutation with to_scoring holds for any flog2",
         "the sequence is reverse-complemented outside the library (no such function exists in lightmotif)",
     ],
